@@ -18,14 +18,14 @@ HARNESS_FEATURES = ""
 PARTIAL = [
     "bounded_poll_partial: for UnpinStrategy::Poll the bound is proved with the size of the policy's pinned region "
     "in place of the number of currently pinned entries (resident <= window + main + |pinned region| + 32). The "
-    "property's 'fixed slack over the currently pinned count' does not hold for Poll: bounded_poll_slack32_refuted "
-    "is a kernel-checked witness (capacity 1, 2 pinned, 57 resident) and the harness replays the adversary family on "
-    "the real cache on every run (distribution.poll_adversary_excess_by_blockers: the excess grows with the number "
-    "of pinned entries). C16_bounded_full_statement (one S for both strategies) is therefore kept as a def, not proved; "
-    "its Notify half is bounded_notify / bounded_notify_real with S = 32.",
-    "no_panic is proved for the repaired Policy::unpin (Cfg.fixF4 = true, fixes/F4-unpin-empty-probation.diff); the "
-    "code as it is panics: asis_unpin_panics is the kernel-checked witness, reproduced on the real cache by the "
-    "harness's canonical replay on every run (known finding F4).",
+    "property's 'fixed slack over the currently pinned count' does not hold for Poll (known finding F15): "
+    "bounded_poll_slack32_refuted is a kernel-checked witness (capacity 1, 2 pinned, 57 resident) and the harness replays "
+    "the adversary on the real cache on every run (signature bound-poll:excess-grows-with-blockers; "
+    "distribution.poll_adversary_excess_by_blockers: the excess grows with the number of pinned entries). "
+    "C16_bounded_full_statement (one S for both strategies) is therefore kept as a def, not proved; its Notify half is "
+    "bounded_notify / bounded_notify_real with S = 32. For the proposed repair (fixes/F15-poll-trim-scan.diff, model toggle "
+    "Cfg.fixTrim, not applied to /repo) bounded_poll_repaired proves resident <= window + main + currently pinned + 32 + "
+    "(releases since the last maintenance round); poll_adversary_repaired is the kernel-checked adversary run (35 instead of 57).",
 ]
 ASSUMPTIONS = [
     "single-threaded, piggy-backed maintenance (try_lock always succeeds; the calling thread's read-buffer shard holds 16 "
@@ -41,11 +41,11 @@ TRUSTED_EXTRA = [
     "model of scc::HashMap as an association list and of crossbeam queues as FIFO lists (single thread)",
     "Policy::new's float arithmetic is modelled by integer ceilings; cross-checked against IEEE f64 for capacities 1..2000 (20000 thorough) on every run",
     "FxBuildHasher::hash_one(u64) is modelled as k * 0x517cc1b727220a95 mod 2^64; cross-checked against the fxhash crate on 2000 keys per shard",
+    "Policy::unpin is modelled with Cfg.fixF4 = true, which is the code as it is since the fix: commit for F4 (no_panic is about "
+    "that code; asis_unpin_panics / fixed_unpin_survives remain as the historical witness of the repaired defect, whose history "
+    "(corpus/C16-F4-unpin-empty-probation.txt) is replayed first on every run and must run clean)",
     "sketch.rs is modelled exactly (bloom bitmap, packed 4-bit counters, SWAR halving) and tied by the eviction order of every compared case; the theorems hold for any sketch",
 ]
-
-F4_SIG_PREFIX = "panic:policy.rs:fn unpin:unwrap-none:self.lru.peek_least_recent(lru::Region::Probation).unwrap();"
-
 
 def _run_shard(args):
     binp, seed, tier, outdir, n, replay = args
@@ -73,19 +73,6 @@ def _run_shard(args):
     return {"seed": seed, "lines": n_lines, "diffs": diffs, "report": rep, "model_panics": reasons}
 
 
-def _fixed_model_survives(ctx, case_text, tag):
-    """(b) of DESIGN §2.4: the repaired model does not panic on the failing case."""
-    if not case_text: return False
-    d = os.path.join(ctx.work, f"attr-{tag}"); os.makedirs(d, exist_ok=True)
-    ops = os.path.join(d, "ops.txt")
-    open(ops, "w").write("\n".join(x.strip() for x in case_text.replace(";", "\n").split("\n") if x.strip()) + "\n")
-    out_asis, out_fix = os.path.join(d, "asis.txt"), os.path.join(d, "fix.txt")
-    vlib.run_driver(DRIVER, ops, out_asis)
-    vlib.run_driver(DRIVER, ops, out_fix, args=("--fix",))
-    asis = open(out_asis).read().split("\n"); fix = open(out_fix).read().split("\n")
-    return ("panic" in asis) and ("panic" not in fix) and ("bad-op" not in fix)
-
-
 def _merge_dist(acc, d):
     for k, v in d.items():
         if isinstance(v, dict):
@@ -100,7 +87,6 @@ def _merge_dist(acc, d):
 
 
 def _collect(ctx, res, shards):
-    n_attr = 0
     for sh in shards:
         if "error" in sh:
             res.disagreements.append({"line": 0, "op": None, "impl": "harness/driver failure", "model": sh["error"][:400], "seed": sh["seed"]})
@@ -113,16 +99,12 @@ def _collect(ctx, res, shards):
         res.rule = rep["rule"]
         if len(res.samples) < 6: res.samples += rep["samples"][:2]
         _merge_dist(res.distribution, rep["distribution"])
-        res.distribution["model_panics_asis"] = res.distribution.get("model_panics_asis", 0) + len(sh["model_panics"])
+        res.distribution["model_panics"] = res.distribution.get("model_panics", 0) + len(sh["model_panics"])
         for f in rep["oracle_failures"]:
+            # every panic is a violation (F4 is fixed; a fixed entry suppresses nothing).  Bound failures: only the
+            # Poll "no fixed slack over currently pinned" signatures belong to known finding F15; bound-notify (S = 32)
+            # and bound-partial (|pinned region| bound of bounded_poll_partial) are violations.
             f = dict(f); f["seed"] = sh["seed"]
-            if f["sig"].startswith("panic:") and f.get("case") and not f["case"].startswith("mt-"):
-                # attribute a single-thread panic to F4 only if the repaired model survives the same history
-                # (that the as-is model panics at the same line is part of the stream comparison)
-                if n_attr < 12:
-                    n_attr += 1
-                    if not _fixed_model_survives(ctx, f["case"], f"{sh['seed']}-{n_attr}"):
-                        f["sig"] += ":not-repaired-by-F4-fix"
             res.oracle_failures.append(f)
     # one line per distinct signature is enough; keep those that carry a replayable case first
     res.oracle_failures.sort(key=lambda f: (f["sig"], 0 if f.get("case") else 1, len(f.get("case", ""))))
